@@ -65,9 +65,19 @@ def run_case(case):
     if case.get('other_portfolio'):
         b.create_portfolio('z_other')            # orders of 'p' must fill into 'p', whatever else the account holds
         cls_other = True
+    twin = bool(case.get('twin'))
+    if twin:
+        # a second portfolio of the same account runs the very same strategy with the same money: every rebalance
+        # produces identical orders in both, and both must end on their targets
+        b.subscribe_funds_to_account(case['cash'])
+        b.create_portfolio('twin')
+        b.subscribe_funds_to_portfolio('twin', case['cash'])
     for ai, n in case['holdings']:
         b.submit_order('p', q.Order(T0, POOL[ai], n))
+        if twin:
+            b.submit_order('twin', q.Order(T0, POOL[ai], n))
     b.update(T0)
+    twin_objs = None
     long_only = case['long_only']
     t = T0
     cls = set()
@@ -107,6 +117,21 @@ def run_case(case):
                 shared = (pcm, sizer, alpha_obj, uni_obj)
         alpha_obj.weights = dict(w)
         uni_obj.inner = uni
+        if twin and (twin_objs is None or twin_objs[4] is not pcm):          # rebuilt whenever the model of 'p' is
+            arg2 = case['rebalances'][0]['sizer_arg'] if reuse else rb['sizer_arg']
+            if long_only:
+                sizer2 = (q.DollarWeightedCashBufferedOrderSizer(b, 'twin', dh) if arg2 == 'default' else
+                          q.DollarWeightedCashBufferedOrderSizer(b, 'twin', dh, cash_buffer_percentage=arg2))
+            else:
+                sizer2 = (q.LongShortLeveragedOrderSizer(b, 'twin', dh) if arg2 == 'default' else
+                          q.LongShortLeveragedOrderSizer(b, 'twin', dh, gross_leverage=arg2))
+            a2, u2 = MutableAlpha(), SwitchUniverse()
+            pcm2 = q.PortfolioConstructionModel(b, 'twin', u2, sizer2, q.FixedWeightPortfolioOptimiser(data_handler=dh),
+                                                alpha_model=None if no_alpha else a2, data_handler=dh)
+            twin_objs = (pcm2, sizer2, a2, u2, pcm)
+        if twin:
+            twin_objs[2].weights = dict(w)
+            twin_objs[3].inner = uni
         held = {a: d['quantity'] for a, d in b.get_portfolio_as_dict('p').items()}
         in_uni = list(uni.get_assets(tc))
         if no_alpha:
@@ -154,6 +179,13 @@ def run_case(case):
         info['rebalances'] += 1
         for o in orders:
             b.submit_order('p', o)
+        if twin:
+            held2 = {a: d['quantity'] for a, d in b.get_portfolio_as_dict('twin').items()}
+            fw2 = {a: 0.0 for a in sorted(set(in_uni) | set(held2))}
+            fw2.update(w)
+            tgt2 = {a: d['quantity'] for a, d in twin_objs[1](tc, dict(fw2)).items()} if fw2 else {}
+            for o in twin_objs[0](tc, stats={'target_allocations': []}):
+                b.submit_order('twin', o)
         to = next_open(tc)
         for i, f in enumerate(rb['moves']):
             a = POOL[i]
@@ -165,6 +197,13 @@ def run_case(case):
         want = {a: n for a, n in tgt.items() if n != 0}
         if sized_all and now != want:
             raise Violation('after the rebalance orders of %s filled: holdings %s, target %s' % (tc, now, want))
+        if twin and sized_all:
+            now2 = {a: d['quantity'] for a, d in b.get_portfolio_as_dict('twin').items()}
+            want2 = {a: n for a, n in tgt2.items() if n != 0}
+            if set(tgt2) == set(fw2) and now2 != want2:
+                raise Violation('after the rebalance orders of %s filled: the twin portfolio (same strategy, same money) holds '
+                                '%s, its target is %s' % (tc, now2, want2))
+            cls.add('twin_portfolio_same_strategy')
         for a in held:
             if (a not in w or w[a] == 0) and a in now:
                 raise Violation('held asset %s received no weight at %s but still holds %s after the fills' % (a, tc, now[a]))
@@ -239,7 +278,8 @@ def cases(draw):
         })
     return {'long_only': long_only, 'cash': cash, 'prices': prices, 'holdings': holdings,
             'fee': draw(st.sampled_from([None, None, [0.001, 0.0], [0.001, 0.005]])), 'rebalances': rebs,
-            'reuse': draw(st.sampled_from([True, True, False])), 'other_portfolio': draw(st.booleans())}
+            'reuse': draw(st.sampled_from([True, True, False])), 'other_portfolio': draw(st.booleans()),
+            'twin': draw(st.sampled_from([False, False, True]))}
 
 
 PARTS = [
